@@ -325,6 +325,11 @@ func (w *world) setter(id int) {
 	c := w.c
 	w.gate()
 	r := w.drawResult(id*10 + 7)
+	if c.S.PlanP(120) {
+		// the zero value is a result like any other
+		c.S.Count("probe:zero-value-result")
+		r.v = 0
+	}
 	c.Descf("setter %d: SetResult(%d,%v)", id, r.v, r.err)
 	at := &attempt{r: r}
 	w.attempts = append(w.attempts, at)
